@@ -221,6 +221,8 @@ def run_reject(case):
             return [Disc('reject.reserved-path-accepted', '')]
         # size limit through subclasses with a small limit
         m = S.build_txdbus_message(MSG, msg)
+        if not isinstance(getattr(m, 'rawMessage', None), bytes):
+            return [Disc('reject.limit-no-raw-message', 'rawMessage is %r' % (getattr(m, 'rawMessage', None),))]
         n = len(m.rawMessage)
         limit = n + case['delta']
         saved_limit = MSG.DBusMessage._maxMsgLen
@@ -258,6 +260,8 @@ def run_real_limit(case):
     saved = MSG.DBusMessage._nextSerial
     try:
         probe = MSG.MethodReturnMessage(1, body=['x'], signature='s')
+        if not isinstance(getattr(probe, 'rawMessage', None), bytes):
+            return [Disc('limit128.no-raw-message', 'MethodReturnMessage.rawMessage is %r' % (getattr(probe, 'rawMessage', None),))]
         overhead = len(probe.rawMessage) - 1    # header + 4 length + NUL
         target = 2**27 + case['over']
         s = 'z' * (target - overhead)
